@@ -543,6 +543,7 @@ func ruleStateAtomic() *Rule {
 				}
 			}
 			checkAtomicReplace(p, obs, atomicSpec{rule: "STATE-ATOMIC", root: "(*persistentStateStorage).SetState", dirField: dir, targetBase: base, what: "state"})
+			encodedFromParams(p, obs, "(*persistentStateStorage).SetState", "encodePersistentState", map[string]string{"term": "term", "votedFor": "votedFor"})
 			return obs.list()
 		},
 	}
